@@ -1019,7 +1019,7 @@ func keyCacheRule(c *Ctx, rf string) {
 	held := p.heldLocks(gk)
 	ns := 0
 	for _, a := range p.accessesOf(gk, map[string]bool{"f:token/tokencache.Cache.keys": true}) {
-		c.Check(held[a.Instr]["f:token/tokencache.Cache.mu"], rf, fmt.Sprintf("%s keys access#%d locked", fname, ns+1), p.Pos(a.Instr.Pos()), "Cache.mu held", "Cache.keys accessed without Cache.mu")
+		c.Check(lockOK(held[a.Instr], "f:token/tokencache.Cache.mu", a.Write), rf, fmt.Sprintf("%s keys access#%d locked", fname, ns+1), p.Pos(a.Instr.Pos()), "Cache.mu held", "Cache.keys accessed without Cache.mu")
 		ns++
 		if !a.Write {
 			continue
